@@ -182,25 +182,46 @@ where
 struct ScopedSnapshotState<'a, H: Host> {
     pub emulator: &'a mut Emulator<H>,
     pub is_48k: bool,
+    // Stack pointer and bytes below it, which are replaced with PC while 48K snapshot is written
+    original_sp: u16,
+    original_stack_bytes: [u8; 2],
 }
 
 impl<'a, H: Host> ScopedSnapshotState<'a, H> {
     fn enter(emulator: &'a mut Emulator<H>) -> Self {
         let is_48k = emulator.settings.machine == ZXMachine::Sinclair48K;
+        let original_sp = emulator.cpu.regs.get_sp();
+        let mut original_stack_bytes = [0u8; 2];
         if is_48k {
-            emulator.cpu.push_pc_to_stack(&mut emulator.controller);
+            // PC is placed on the stack directly in memory, without CPU bus activity (which
+            // takes emulated time in contended memory), and is removed again afterwards
+            let [pcl, pch] = emulator.cpu.regs.get_pc().to_le_bytes();
+            let memory = &mut emulator.controller.memory;
+            original_stack_bytes = [
+                memory.read(original_sp.wrapping_sub(2)),
+                memory.read(original_sp.wrapping_sub(1)),
+            ];
+            memory.write(original_sp.wrapping_sub(2), pcl);
+            memory.write(original_sp.wrapping_sub(1), pch);
+            emulator.cpu.regs.set_sp(original_sp.wrapping_sub(2));
         }
 
-        Self { emulator, is_48k }
+        Self {
+            emulator,
+            is_48k,
+            original_sp,
+            original_stack_bytes,
+        }
     }
 }
 
 impl<'a, H: Host> Drop for ScopedSnapshotState<'a, H> {
     fn drop(&mut self) {
         if self.is_48k {
-            self.emulator
-                .cpu
-                .pop_pc_from_stack(&mut self.emulator.controller);
+            let memory = &mut self.emulator.controller.memory;
+            memory.write(self.original_sp.wrapping_sub(2), self.original_stack_bytes[0]);
+            memory.write(self.original_sp.wrapping_sub(1), self.original_stack_bytes[1]);
+            self.emulator.cpu.regs.set_sp(self.original_sp);
         }
     }
 }
@@ -211,7 +232,9 @@ where
     R: DataRecorder,
 {
     let state = ScopedSnapshotState::enter(emulator);
-    let ScopedSnapshotState { emulator, is_48k } = &state;
+    let ScopedSnapshotState {
+        emulator, is_48k, ..
+    } = &state;
 
     let mut header = [0u8; SNA_HEADER_SIZE];
     // interrupt register
